@@ -194,8 +194,14 @@ impl<'a> IrEmitter<'a> {
                         return Ok(quote! { *#l #op_tokens #r });
                     }
 
-                    // `(x) as f64 < y` does not parse (`<` after a cast starts generic arguments).
-                    if matches!(plan.lhs_conv, NumericConversion::ToFloat) {
+                    // `(x) as f64 < y` does not parse (`<` after a cast starts generic arguments). The cast may also be
+                    // the tail of a nested operand (`f - (3) as f64 < y`), so look at what the left side ends in.
+                    let mut tail = l.clone().into_iter().collect::<Vec<_>>();
+                    let ends_in_cast = matches!(op, BinOp::Lt | BinOp::Le)
+                        && tail.len() >= 2
+                        && matches!(tail.pop(), Some(proc_macro2::TokenTree::Ident(_)))
+                        && matches!(tail.pop(), Some(proc_macro2::TokenTree::Ident(kw)) if kw == "as");
+                    if matches!(plan.lhs_conv, NumericConversion::ToFloat) || ends_in_cast {
                         return Ok(quote! { (#l) #op_tokens #r });
                     }
                 }
